@@ -10,6 +10,7 @@ MACHINE = None
 N_QUICK = 1500
 N_THOROUGH = 40000
 DONE = ("CANCELLED", "CANCELLED_AND_NOTIFIED", "FINISHED")
+det.KEEP_NAMED = False     # the caller may drop the output (below): the scheduler must not be what keeps the chain alive
 
 
 class FalsyError(KeyError):
@@ -36,6 +37,10 @@ def gen(rng):
             "boom_kind": rng.choice(["key", "key", "falsy", "base", "cancelled", "stopiter"]),
             # inputs that are library futures themselves (f_proxy / f_nocancel / f_map over the environment future)
             "wrap": {str(i): rng.choice(["proxy", "nocancel", "map"]) for i in range(n) if rng.random() < 0.2},
+            # done-callbacks (some raising) that somebody registered on an input BEFORE f_apply attached its own
+            "early_cbs": {str(i): rng.random() < 0.6 for i in range(n) if rng.random() < 0.25},
+            # the caller keeps no reference to the output: it only registers a done-callback on it (or relies on fn's effect)
+            "drop_out": rng.random() < 0.25,
             "futvals": {str(i): rng.choice(["pending", "done", "failed"]) for i in range(1, n) if rng.random() < 0.12}}
 
 
@@ -88,8 +93,21 @@ def execute(p, chooser):
             for i, w in p.get("wrap", {}).items():
                 f = futs[int(i)]
                 given[int(i)] = f_proxy(f) if w == "proxy" else f_nocancel(f) if w == "nocancel" else f_map(f, lambda x: x)
+        for i, raises in sorted(p.get("early_cbs", {}).items()):
+            def early(f, raises=raises):
+                if raises:
+                    raise RuntimeError("early callback fault")
+            given[int(i)].add_done_callback(early)
         kw = {"k%d" % j: given[1 + p["npos"] + j] for j in range(p["nkw"])}
         out = f_apply(given[0], *given[1:1 + p["npos"]], **kw)
+        seen = []
+        if p.get("drop_out"):
+            out.add_done_callback(lambda f: seen.append((f._state, f._exception if f._state == "FINISHED" else None,
+                                                         f._result if f._state == "FINISHED" else None)))
+            del out, kw, given
+            import gc
+            with det.atomic():
+                gc.collect()
         todo = [i for i in p["order"] if not p["pre"][i]]
 
         def env():
@@ -102,8 +120,11 @@ def execute(p, chooser):
         for t in ts:
             t.join()
         with det.atomic():
-            st = out._state
-            obs["res"] = (st, out._exception if st == "FINISHED" else None, out._result if st == "FINISHED" else None, boom, fnexc)
+            if p.get("drop_out"):
+                obs["res"] = (seen[0] if seen else ("PENDING", None, None)) + (boom, fnexc)
+            else:
+                st = out._state
+                obs["res"] = (st, out._exception if st == "FINISHED" else None, out._result if st == "FINISHED" else None, boom, fnexc)
 
     r = det.run(chooser, main)
     return r, obs
